@@ -160,6 +160,20 @@ CHECKS["C01"] = dict(
          "lian's frontend code itself runs concretely (tree-sitter cannot be made symbolic).",
     design="4/C01")
 
+CHECKS["C04"] = dict(
+    level="model_checking", engine="T",
+    technique="per generated program: real lian run (main.py semantic) produces GIR and CFG tables; CrossHair (z3) executes the "
+              "reference GIR interpreter with symbolic entry arguments and checks that every statement trace is a path of "
+              "lian's stored control-flow graph",
+    text="Bounded model checking over branch-decision vectors: for every method of every program in the enumerated Python "
+         "family and ALL entry arguments (every combination of branch outcomes; loop counters 0..3), the first executed "
+         "statement is an entry node, every consecutively executed pair is an edge of semantic_p1/cfg, and the last statement "
+         "before leaving has an edge to the exit; plus a concrete scan that no node belongs to another method. CONFIRMED = "
+         "all paths of all programs in the slice exhausted.",
+    note="Trusted: the reference interpreter's trace convention (DESIGN section 10), CrossHair/z3. lian's CFG builder runs "
+         "concretely; Python frontend only in this round.",
+    design="4/C04")
+
 NOT_APPLICABLE = {
     "C12": "A relation between two whole-pipeline runs on syntactically edited programs: the quantified objects are "
            "program texts and edit sequences; no run-time input, id, flag or history for a solver to range over; "
